@@ -33,6 +33,57 @@ def acc_arg(c):
     return "clear" if c == CLEAR else c
 
 
+class Raised:
+    """what a call under test returned when it raised instead: a value that equals nothing, so every comparison reports it"""
+    def __init__(self, exc):
+        self.exc = exc
+
+    def __repr__(self):
+        return "raised %s: %s" % (type(self.exc).__name__, str(self.exc)[:70])
+
+    def __eq__(self, other):
+        return False
+
+    def __ne__(self, other):
+        return True
+
+    __hash__ = object.__hash__
+
+
+def norm1(v):
+    """an integral value of another numeric type (numpy int, integral float / mpf) is the integer it equals: the statements speak of values"""
+    if isinstance(v, (bool, int)):
+        return v
+    try:
+        k = int(v)
+        if v == k:
+            return k
+    except Exception:  # pylint: disable=broad-except
+        pass
+    return v
+
+
+def norm(out):
+    if isinstance(out, (tuple, list)):
+        return tuple(norm1(v) for v in out)
+    return norm1(out)
+
+
+def call(fn, *args):
+    """a call under test: an exception on a valid input is an observation (a violation), not a harness failure"""
+    try:
+        return norm(fn(*args))
+    except Exception as exc:  # pylint: disable=broad-except
+        return Raised(exc)
+
+
+def ints(out, n=None):
+    """out is a tuple of n integers (or one integer when n is None)"""
+    if n is None:
+        return is_int(out)
+    return isinstance(out, tuple) and len(out) == n and is_int(*out)
+
+
 # ---------------------------------------------------------------------------
 # exact reference arithmetic used ONLY to pick interesting inputs and to propose LM witnesses
 # (every verdict is TLC's; a wrong witness is a machinery error, never a violation)
@@ -92,7 +143,7 @@ def cnt_at(r, a, c, k):
 
 def lm_witness(steps, r, a, c, tmax=2 ** 33):
     """first tick at which cnt reaches steps, or None (never, or leaves the valid domain first)."""
-    if abs(r0_of(r, a)) > MM1 or abs(r0_of(r, a) + a) > MM1:
+    if abs(r0_of(r, a) + a) > MM1:             # tick 1; the adjusted start rate r0 itself is not a per-tick rate and may exceed the range
         return None
     # last tick with |rate| in range
     if a == 0:
@@ -120,7 +171,7 @@ def lm_witness(steps, r, a, c, tmax=2 ** 33):
 
 def ev_move(fn, r, a, j, c, T, out, dps, extra=None):
     ok = isinstance(out, tuple) and len(out) == 2 and is_int(*out)
-    e = {"fn": fn, "r": r, "a": a, "j": j, "c": c, "T": L(T), "isint": ok,
+    e = {"fn": fn, "r": r, "a": a, "j": j, "c": c, "T": L(T), "isint": ok, "raised": isinstance(out, Raised),
          "pos": L(out[0]) if ok else L(0), "acc": L(out[1]) if ok else L(0), "dps": dps, "raw": repr(out)[:80]}
     if extra:
         e.update(extra)
@@ -129,14 +180,15 @@ def ev_move(fn, r, a, j, c, T, out, dps, extra=None):
 
 def ev_val(fn, r, a, j, T, out, dps):
     ok = is_int(out)
-    return {"fn": fn, "r": r, "a": a, "j": j, "T": L(T), "isint": ok, "val": L(out) if ok else L(0), "dps": dps,
+    return {"fn": fn, "r": r, "a": a, "j": j, "T": L(T), "isint": ok, "raised": isinstance(out, Raised), "val": L(out) if ok else L(0), "dps": dps,
             "raw": repr(out)[:60]}
 
 
 def ev_lm(steps, r, a, c, out, lt, tw, dps, via="calculate_lm"):
+    """lt: what move_dist_lt answered when fed the reported duration (None: not asked, the duration was not a positive integer)"""
     ok = isinstance(out, tuple) and len(out) == 3 and is_int(*out)
     haslt = lt is not None and isinstance(lt, tuple) and len(lt) == 2 and is_int(*lt)
-    return {"fn": "lm", "steps": steps, "r": r, "a": a, "c": c, "isint": ok,
+    return {"fn": "lm", "steps": steps, "r": r, "a": a, "c": c, "isint": ok, "raised": isinstance(out, Raised), "ltbad": lt is not None and not haslt,
             "T": L(out[0]) if ok else L(0), "pos": L(out[1]) if ok else L(0), "acc": L(out[2]) if ok else L(0),
             "hasw": tw is not None, "Tw": L(tw or 0), "haslt": haslt,
             "ltpos": L(lt[0]) if haslt else L(0), "ltacc": L(lt[1]) if haslt else L(0), "dps": dps, "via": via,
